@@ -458,16 +458,21 @@ def inv_c09(prog, trace):
             if bool(res) != bool(exp):
                 fails.append(("c09-done-condition", "tick %d: %s on line %d evaluated %r but the completion state says %r" % (t, nd, line, res, exp)))
     # an auxiliary framer runs once per run of its main framer (which runs at most once per tick): none of its frames
-    # does its recur actions twice in one tick, whoever lists it
+    # does its recur actions twice in one tick without being entered again in between, whoever lists it
+    # (a frame that is exited and entered again within the tick - e.g. the aux completes as the conditional aux of one
+    # frame and is then entered as the plain aux of the frame the transition leads to - starts a new count)
     seen = {}
     for t, e in E:
-        if e[0] == "f" and e[3] == "recur" and roles.get(e[1]) == "aux":
+        if e[0] == "f" and roles.get(e[1]) == "aux":
             k = (t, e[1], e[2])
-            seen[k] = seen.get(k, 0) + 1
-    for (t, F, X), c in sorted(seen.items()):
-        if c > 1:
-            fails.append(("c09-aux-ran-twice-in-a-tick", "tick %d: frame %s of auxiliary %s did its recur actions %d times" % (t, X, F, c)))
-            break
+            if e[3] == "enter":
+                seen[k] = 0
+            elif e[3] == "recur":
+                seen[k] = seen.get(k, 0) + 1
+                if seen[k] > 1:
+                    fails.append(("c09-aux-ran-twice-in-a-tick", "tick %d: frame %s of auxiliary %s did its recur actions %d times "
+                                  "without being entered again in between" % (t, e[2], e[1], seen[k])))
+                    break
     return fails
 
 
